@@ -70,12 +70,13 @@ Definition site_ok (s : site) : bool :=
   | _, _ => false
   end.
 
-(* stdlib-ElementTree names that only build or serialise trees *)
+(* stdlib-ElementTree names that only build or serialise trees (ParseError is
+   the exception class: naming it in an except clause reads nothing) *)
 Definition et_building_names : list str :=
   [ s2l "Element"; s2l "SubElement"; s2l "tostring"; s2l "tostringlist";
     s2l "register_namespace"; s2l "iselement"; s2l "_namespace_map"; s2l "QName";
     s2l "VERSION"; s2l "Comment"; s2l "ProcessingInstruction"; s2l "PI";
-    s2l "dump"; s2l "indent" ].
+    s2l "dump"; s2l "indent"; s2l "ParseError" ].
 
 Definition use_ok (u : et_use) : bool := mem_str (u_attr u) et_building_names.
 
